@@ -29,7 +29,7 @@ type crashWorld struct {
 }
 
 type crashStep struct {
-	name string
+	name string // a name starting with "Close" means: the bucket is closed after this step, the writer cannot dump its own view
 	do   func(w *crashWorld) error
 }
 
@@ -159,6 +159,24 @@ var crashHistories = map[string][]crashStep{
 		}},
 		{"Set k2 exp=300 (pending expiry)", func(w *crashWorld) error { return w.a.Set("k2", 300, nil, []byte(`{"p":1}`)) }},
 	},
+	"H5-close-reopen": {
+		{"OpenBucket(CreateNew)", openStep},
+		{"NamedDataStore(sc.A)", collAStep},
+		{"Set k", func(w *crashWorld) error { return w.a.Set("k", 0, nil, []byte(`{"v":1}`)) }},
+		{"Set j exp=500", func(w *crashWorld) error { return w.a.Set("j", 500, nil, []byte(`{"v":2}`)) }},
+		{"Close (last handle: SQLite checkpoints and removes the WAL)", func(w *crashWorld) error { w.b.Close(ctx); return nil }},
+		{"OpenBucket(ReOpenExisting)", func(w *crashWorld) error {
+			b, err := rosmar.OpenBucket(w.url(), "b1", rosmar.ReOpenExisting)
+			if err != nil {
+				return err
+			}
+			w.b = b
+			return collAStep(w)
+		}},
+		{"Delete k", func(w *crashWorld) error { return w.a.Delete("k") }},
+		{"Set k2", func(w *crashWorld) error { return w.a.Set("k2", 0, nil, []byte(`{"v":3}`)) }},
+		{"Close again", func(w *crashWorld) error { w.b.Close(ctx); return nil }},
+	},
 	"H4-collections-views": {
 		{"OpenBucket(CreateNew)", openStep},
 		{"NamedDataStore(sc.A)", collAStep},
@@ -236,6 +254,11 @@ func CrashChildMain(history string) {
 		}
 		fmt.Fprintf(ack, "ack %d\n", i)
 		if os.Getenv("STOP_AFTER") != "" && i == stopAfter {
+			if strings.HasPrefix(st.name, "Close") {
+				out, _ := json.Marshal(crashDump{Tables: "(closed)"})
+				os.Stdout.Write(out)
+				os.Exit(0)
+			}
 			d, err := rosmar.VerifDumpAll(w.b)
 			if err != nil {
 				fmt.Fprintln(os.Stderr, "dump:", err)
@@ -420,7 +443,7 @@ func RunCrash(rep *Report, history string, procs int, deadline time.Time) {
 			viol("reopen", fmt.Sprintf("after %d acknowledged calls (last: %s) and a process exit the bucket cannot be reopened: %s", a+1, steps[a].name, fresh.OpenErr), 0)
 			return
 		}
-		if fresh.Tables != inproc.Tables {
+		if inproc.Tables != "(closed)" && fresh.Tables != inproc.Tables {
 			viol("durability", fmt.Sprintf("after %q returned and the process exited, a fresh process sees a different state than the writer saw:\n%s", steps[a].name, firstDiff(inproc.Tables, fresh.Tables)), 0)
 		}
 		if uuid == "" {
